@@ -91,11 +91,11 @@ theorem gap_ge_backoff (bo : Backoffs) (script : List Att) (t : Int) (j : Nat) (
   have := gap_ge_backoff_from bo script 0 t j tj tj' a h0 h1 ha
   simpa using this
 
-theorem verdict_429 (r : Resp) (h : r.status = 429) (hb : r.hdrBad = false) :
+theorem verdict_429 (r : Resp) (h : r.status = 429) (hb : r.hdr ≠ .overflow) :
     verdict (.http r) = .retry .tooMany (retryAfter r) := by
   simp [verdict, raises, classify, retryable, h, hb]
 
-theorem verdict_429_bad (r : Resp) (h : r.status = 429) (hb : r.hdrBad = true) :
+theorem verdict_429_bad (r : Resp) (h : r.status = 429) (hb : r.hdr = .overflow) :
     verdict (.http r) = .raise .other := by
   simp [verdict, raises, classify, retryable, h, hb]
 
@@ -128,9 +128,8 @@ theorem gap_ge_retry_after_from (bo : Backoffs) (enforce : Bool) (script : List 
           rw [htl] at h1
           simp at h1
           subst ha h0
-          cases hbad : r.hdrBad with
-          | true => rw [hf, verdict_429_bad r h429 hbad] at hv; cases hv
-          | false => ?_
+          by_cases hbad : r.hdr = .overflow
+          · rw [hf, verdict_429_bad r h429 hbad] at hv; cases hv
           rw [hf, verdict_429 r h429 hbad, hra] at hv
           injection hv with _ hra'
           subst hra'
@@ -276,12 +275,12 @@ theorem transient_retried_then_escalates (l : List Int) (enforce : Bool) (script
   have := transient_retried_from l enforce script 0 t (by omega) ht
   simpa [request] using this
 
-/-- which HTTP responses are transient: exactly 5xx, 403 and 429 — except (finding F1) a 429 whose
-    Retry-After header is not a number -/
+/-- which HTTP responses are transient: exactly 5xx, 403 and 429 — except (finding F2) a 429 whose
+    Retry-After header overflows `float()` -/
 theorem transient_http_iff (r : Resp) :
     (∃ c ra, verdict (.http r) = .retry c ra) ↔
       ((r.status = 403 ∨ r.status = 429 ∨ (500 ≤ r.status ∧ r.status < 600)) ∧
-       ¬ (r.status = 429 ∧ r.hdrBad = true)) := by
+       ¬ (r.status = 429 ∧ r.hdr = .overflow)) := by
   constructor
   · rintro ⟨c, ra, h⟩
     constructor
@@ -302,10 +301,10 @@ theorem transient_http_iff (r : Resp) :
       unfold classify
       repeat' split
       all_goals first | rfl | omega
-    have hb : (decide (classify r.status = ErrClass.tooMany) && r.hdrBad) = false := by
-      cases hbad : r.hdrBad with
-      | false => simp
-      | true =>
+    have hb : (decide (classify r.status = ErrClass.tooMany) && decide (r.hdr = .overflow)) = false := by
+      by_cases hbad : r.hdr = .overflow
+      case neg => simp [hbad]
+      case pos =>
         have : r.status ≠ 429 := fun e => hnb ⟨e, hbad⟩
         have : classify r.status ≠ .tooMany := by
           unfold classify
@@ -315,28 +314,66 @@ theorem transient_http_iff (r : Resp) :
     exact ⟨classify r.status, if classify r.status = ErrClass.tooMany then retryAfter r else none,
       by simp only [verdict, h4, hr, if_true, hb]; simp⟩
 
-/-- Finding F1 (the clause "429 is retried" is false for one legal header form): a 429 whose
-    `Retry-After` is an HTTP-date makes `int(float(..))` raise ValueError inside the retry handler;
-    the request fails at once with that foreign error, whatever backoffs are left. -/
-theorem retry_after_http_date_witness (bo : Backoffs) (enforce : Bool) (rest : List Att) (t : Int)
-    (r : Resp) (lat : Nat) (h429 : r.status = 429) (hbad : r.hdrBad = true) :
+theorem truncSec_gt (x : Int) : x - tickPerSec < truncSec x := by
+  unfold truncSec tickPerSec; split <;> omega
+
+/-- F1 repaired: a 429 whose `Retry-After` is an HTTP-date is retried like any other 429, and the
+    next attempt — whenever there is one — starts no earlier than `max(0, int(when - now))` whole
+    seconds after the response, hence less than one second before the date itself (the code
+    truncates `when - now` to whole seconds; see the witness below). -/
+theorem retry_after_http_date (bo : Backoffs) (enforce : Bool) (script : List Att) (t : Int)
+    (j : Nat) (tj tj' : Int) (a : Att) (r : Resp) (d : Int)
+    (h0 : (request bo enforce script t).times[j]? = some tj)
+    (h1 : (request bo enforce script t).times[j + 1]? = some tj')
+    (ha : script[j]? = some a) (hf : a.fault = .http r) (h429 : r.status = 429) (hd : r.hdr = .date d) :
+    (∃ c ra, verdict a.fault = .retry c ra) ∧
+    0 ≤ tj' - (tj + a.lat) ∧ truncSec d ≤ tj' - (tj + a.lat) ∧ d - tickPerSec < tj' - (tj + a.lat) := by
+  have hra : retryAfter r = some (if truncSec d < 0 then 0 else truncSec d) := by simp [retryAfter, hd]
+  have := gap_ge_retry_after bo enforce script t j tj tj' a r _ h0 h1 ha hf h429 hra
+  have hgt := truncSec_gt d
+  refine ⟨⟨.tooMany, retryAfter r, by rw [hf]; exact verdict_429 r h429 (by rw [hd]; simp)⟩, ?_, ?_, ?_⟩ <;>
+    (split at this <;> omega)
+
+/-- The truncation is real: a date 2.5 s ahead is waited for 2 s only (zero backoff). -/
+theorem http_date_truncation_witness :
+    (request (ofList [0]) false [⟨.http ⟨429, .date 2560, .empty, none⟩, 0⟩] 0).times = [0, 2048] := by decide
+
+/-- An unparsable `Retry-After` is ignored — no foreign exception, the 429 is retried on the
+    configured backoff alone (and the body's `details.retryAfterSeconds` is not consulted, as for
+    any present header). -/
+theorem retry_after_garbage_falls_back (bo : Backoffs) (enforce : Bool) (rest : List Att) (t : Int)
+    (r : Resp) (lat : Nat) (b : Int) (h429 : r.status = 429) (hg : r.hdr = .garbage) (hb : bo 0 = some b) :
+    verdict (.http r) = .retry .tooMany none ∧
+    (request bo enforce (⟨.http r, lat⟩ :: rest) t).waits.head? = some b := by
+  have hv : verdict (.http r) = .retry .tooMany none := by
+    rw [verdict_429 r h429 (by rw [hg]; simp)]; simp [retryAfter, hg]
+  exact ⟨hv, by simp [request, run_cons, hv, hb, effDelay]⟩
+
+/-- Finding F2 (residual of the F1 repair; the clause "429 is retried" is still false for one
+    garbage form): a `Retry-After` that `float()` turns into ±inf ("inf", "1e999") makes `int()`
+    raise OverflowError inside the retry handler; the request fails at once with that foreign
+    error, whatever backoffs are left. -/
+theorem retry_after_overflow_witness (bo : Backoffs) (enforce : Bool) (rest : List Att) (t : Int)
+    (r : Resp) (lat : Nat) (h429 : r.status = 429) (hbad : r.hdr = .overflow) :
     request bo enforce (⟨.http r, lat⟩ :: rest) t = ⟨[t], [], .escalated .other, t + lat⟩ := by
   simp [request, run_cons, verdict_429_bad r h429 hbad]
 
 -- non-vacuity: concrete scripts that meet the hypotheses, evaluated by the model
 example : (request (ofList [1024, 512]) false
-    [⟨.http ⟨500, none, false, .empty, none⟩, 256⟩, ⟨.http ⟨429, some 3072, false, .empty, none⟩, 0⟩,
-     ⟨.exc true false false false false, 128⟩, ⟨.http ⟨503, none, false, .empty, none⟩, 0⟩] 0)
+    [⟨.http ⟨500, .absent, .empty, none⟩, 256⟩, ⟨.http ⟨429, .secs 3072, .empty, none⟩, 0⟩,
+     ⟨.exc true false false false false, 128⟩, ⟨.http ⟨503, .absent, .empty, none⟩, 0⟩] 0)
     = ⟨[0, 1280, 4352], [1024, 3072], .escalated .conn, 4480⟩ := by decide
-example : (request (ofList [1024]) true [⟨.http ⟨429, none, false, .statusJson, some 2048⟩, 0⟩] 0).times = [0, 2048] := by decide
+example : (request (ofList [1024]) true [⟨.http ⟨429, .absent, .statusJson, some 2048⟩, 0⟩] 0).times = [0, 2048] := by decide
 example : Fatal4xx 404 ∧ Fatal4xx 401 ∧ Fatal4xx 422 := by unfold Fatal4xx; omega
-example : AllTransient [⟨.http ⟨403, none, false, .empty, none⟩, 0⟩, ⟨.exc false true false false false, 3⟩] := by
+example : AllTransient [⟨.http ⟨403, .absent, .empty, none⟩, 0⟩, ⟨.exc false true false false false, 3⟩] := by
   intro a ha; simp at ha; rcases ha with rfl | rfl
   · exact ⟨.forbidden, none, by decide⟩
   · exact ⟨.timeout, none, by decide⟩
-example : retryAfter ⟨429, some 2560, false, .text, none⟩ = some 2048 := by decide   -- "2.5" → int(float()) = 2 s
-example : retryAfter ⟨429, none, false, .statusJson, some 0⟩ = none := by decide      -- retryAfterSeconds: 0 is falsy
-example : retryAfter ⟨429, some 0, false, .statusJson, some 5120⟩ = some 0 := by decide -- header "0" is truthy
+example : retryAfter ⟨429, .secs 2560, .text, none⟩ = some 2048 := by decide   -- "2.5" → int(float()) = 2 s
+example : retryAfter ⟨429, .date (-700), .text, none⟩ = some 0 := by decide      -- a date in the past: max(0, …)
+example : retryAfter ⟨429, .garbage, .statusJson, some 5120⟩ = none := by decide -- details not consulted
+example : retryAfter ⟨429, .absent, .statusJson, some 0⟩ = none := by decide      -- retryAfterSeconds: 0 is falsy
+example : retryAfter ⟨429, .secs 0, .statusJson, some 5120⟩ = some 0 := by decide -- header "0" is truthy
 
 /-! ## `throttled` — for every delay configuration, every sequence of cycle outcomes -/
 
